@@ -11,6 +11,7 @@ import json
 import multiprocessing as mp
 import os
 import re
+import signal
 import sys
 import time
 import traceback
@@ -89,6 +90,26 @@ def _run_unit(unit: Unit) -> dict:
             "solver_ms": round(ex.solver_ms, 1), "wall_s": round(time.time() - t0, 2),
             "error": err, "error_kind": kind, "bounded": unit.bounded,
             "assumptions": sorted(ex.assumptions)}
+
+
+class NativeTimeout(Exception):
+    pass
+
+
+def _bounded(fn: Callable[..., Any], seconds: int, *args: Any) -> Any:
+    """Run a native replay/search under a wall-clock limit (the changed code may hang)."""
+    def onalarm(sig: int, frame: Any) -> None:
+        raise NativeTimeout(f"native run exceeded {seconds}s")
+    try:
+        old = signal.signal(signal.SIGALRM, onalarm)
+    except ValueError:
+        return fn(*args)
+    signal.alarm(seconds)
+    try:
+        return fn(*args)
+    finally:
+        signal.alarm(0)
+        signal.signal(signal.SIGALRM, old)
 
 
 _UNITS: list[Unit] = []
@@ -174,19 +195,20 @@ class Check:
             reproduced, msg = False, ""
             if replay is not None and model is not None:
                 try:
-                    reproduced, msg = replay(u, o["name"], model)
+                    reproduced, msg = _bounded(replay, 60, u, o["name"], model)
                 except Exception:
                     msg = "replay crashed: " + traceback.format_exc()
             if not reproduced and search is not None and time.time() < self.search_deadline:
                 try:
-                    found = search(u, o["name"], self.seed)
+                    found = _bounded(search, 120, u, o["name"], self.seed)
                 except Exception:
                     found = None
                     msg += "\nsearch crashed: " + traceback.format_exc()
                 if found is not None:
                     model = found
                     try:
-                        reproduced, msg2 = replay(u, o["name"], model) if replay else (False, "")
+                        reproduced, msg2 = _bounded(replay, 60, u, o["name"], model) \
+                            if replay else (False, "")
                         msg += "\n[witness found by native search over the obligation's " \
                                "input space]\n" + msg2
                     except Exception:
